@@ -528,6 +528,18 @@ def run(ctx):
     rules.append(r6)
     from .c02 import tree_agreement_rule
     rules.append(tree_agreement_rule(ctx, "C04", "C04.R7"))
+    # the generated meta block (instanceID / instanceName / audit / entity) - the slice evaluated by C11.R5
+    from . import c11 as _c11
+    r8 = Rule("C04", "C04.R8", "the generated meta block holds exactly the documented nodes", floor=20,
+              necessary="an audit row, instanceName or entity declaration missing from the meta block has no instance node and no bind")
+    src = next((r_ for r_ in _c11.run(ctx) if r_.rid == "C11.R5"), None)
+    for o in (src.obligations if src is not None else []):
+        if o["construct"].startswith("meta["):
+            o2 = dict(o)
+            o2["rule"] = "C04.R8"
+            o2["shared_with"] = "C11.R5"
+            r8.obligations.append(o2)
+    rules.append(r8)
     return rules
 
 
